@@ -281,15 +281,23 @@ def check_isomorphisms(host, pat, case):
         if bool(ismags.is_isomorphic(sym)) != expect:
             raise Violation('bool', 'is_isomorphic(%s) is %s, expected %s' % (sym, ismags.is_isomorphic(sym), expect))
 
-    # --- a symmetry cache (as repair_graph passes one) must not change the answer
+    # --- a symmetry cache shared between ISMAGS objects (as repair_graph passes one) must not change the answer.
+    # The cache is first filled by matching the colour-less version of the pattern (same nodes and edges).
     if case.get('cache'):
         cache = {}
+        blank = nx.Graph()
+        blank.add_nodes_from(pat.nodes, c=0)
+        blank.add_edges_from(pat.edges, c=0)
+        warm = make_ismags(blank, blank, case, cache=cache)
+        n_blank = len(list(itertools.islice(warm.find_isomorphisms(True), 2)))
+        if n_blank != 1:
+            raise Violation('sym-self', 'symmetry=True yields %d mappings of the colour-less pattern onto itself, expected 1' % n_blank)
         for turn in range(2):
             cached = make_ismags(host, pat, case, cache=cache)
             got_cached = list(itertools.islice(cached.find_isomorphisms(True), len(ref) + 1))
             if got_cached != got_sym:
-                raise Violation('cache', 'with cache= (use %d) symmetry=True yields %d mappings, without %d, or in another order'
-                                % (turn + 1, len(got_cached), len(got_sym)))
+                raise Violation('cache', 'with a shared cache= (use %d) symmetry=True yields %d mappings, without cache %d (or '
+                                'other mappings/order)' % (turn + 1, len(got_cached), len(got_sym)))
         classes.append('cache')
 
     n_aut = len(auts) if auts else 0
@@ -540,8 +548,8 @@ def _match_flags(draw, knc, kec):
 def _strategy_random_case(draw, tier):
     n = draw(st.integers(2, 10))
     hedges = draw(_gnp_edges(n))
-    knc = draw(st.sampled_from([1, 1, 2, 2, 3]))
-    kec = draw(st.sampled_from([1, 1, 2]))
+    knc = draw(st.sampled_from([1, 2, 2, 3]))
+    kec = draw(st.sampled_from([1, 2, 2]))
     hnc = draw(_colours(n, knc))
     hec = draw(_colours(len(hedges), kec))
     kind = draw(st.sampled_from(['induced', 'induced', 'induced', 'perturbed', 'independent']))
@@ -578,7 +586,7 @@ def _strategy_random_case(draw, tier):
     nm, em = _match_flags(draw, knc, kec)
     return {'host': draw(_describe(n, hedges, hnc, hec)),
             'pat': draw(_describe(m, pedges, pnc, pec)),
-            'nm': nm, 'em': em, 'do': ['iso'], 'cache': draw(st.integers(0, 5)) == 0,
+            'nm': nm, 'em': em, 'do': ['iso'], 'cache': draw(st.sampled_from([False, False, False, True])),
             'kind': kind}
 
 
@@ -805,7 +813,7 @@ def _strategy_symmetric_case(draw, tier):
     nm, em = _match_flags(draw, knc, kec)
     return {'host': draw(_describe(hn, hedges, hnc, hec)),
             'pat': draw(_describe(n, edges, pnc, pec)),
-            'nm': nm, 'em': em, 'do': ['iso'], 'cache': draw(st.integers(0, 5)) == 0,
+            'nm': nm, 'em': em, 'do': ['iso'], 'cache': draw(st.sampled_from([False, False, False, True])),
             'kind': name}
 
 
@@ -918,11 +926,49 @@ def _strategy_lcs(tier):
 
 
 PARTS = [
-    Part('exhaustive', run_case, enumerate=_enumerate_exhaustive),
+    Part('exhaustive', run_case, enumerate=_enumerate_exhaustive,
+         floors={'match': 0.05, 'A>=2': 0.03, 'several-orbits': 0.01, 'lcs-shrunk': 0.3, 'lcs-shrunk-A>=2': 0.2,
+                 'node-colours': 0.2, 'edge-colours': 0.05}),
     Part('random', run_case, strategy=_strategy_random,
-         examples={'quick': 1600, 'thorough': 60000}),
+         examples={'quick': 1600, 'thorough': 60000},
+         floors={'match': 0.4, 'no-match': 0.04, 'A>=2': 0.1, 'several-orbits': 0.05, 'node-colours': 0.08,
+                 'edge-colours': 0.04, 'cache': 0.08}),
     Part('symmetric', run_case, strategy=_strategy_symmetric,
-         examples={'quick': 1600, 'thorough': 60000}),
+         examples={'quick': 1600, 'thorough': 60000},
+         floors={'match': 0.4, 'no-match': 0.05, 'A>=12': 0.15, 'A>=100': 0.04, 'several-orbits': 0.04,
+                 'node-colours': 0.1, 'edge-colours': 0.08, 'cache': 0.08}),
     Part('lcs', run_case, strategy=_strategy_lcs,
-         examples={'quick': 1200, 'thorough': 40000}),
+         examples={'quick': 1200, 'thorough': 40000},
+         floors={'lcs-shrunk': 0.4, 'lcs-shrunk>=2': 0.15, 'lcs-shrunk-A>=2': 0.25, 'lcs-reduced': 0.3, 'lcs-full': 0.08,
+                 'node-colours': 0.1, 'edge-colours': 0.04}),
 ]
+
+
+# ---------------------------------------------------------------------------
+# matchers for known findings (referenced from known_findings.json)
+
+def _match_refine_branch(params, part_name, case, violation):
+    """
+    Known finding: ISMAGS._refine_node_partitions(branch=True) loses orderings
+    (generator exhausted after the first partial partition) and cells
+    (`permutation[0]`), so analyze_symmetry finds too few symmetries of some
+    patterns with >= 8 nodes or dies with KeyError in _find_node_edge_color.
+    Matches only those two symptoms, and the first only when the cosets
+    reported by analyze_symmetry really describe fewer symmetries than exist.
+    """
+    pat = build(case['pat'])
+    if len(pat) < params.get('min_pattern_nodes', 8):
+        return False
+    if violation.bucket == 'crash:KeyError:vermouth/ismags.py:_find_node_edge_color':
+        return True
+    if violation.bucket != 'sym-orbit-twice':
+        return False
+    ismags = make_ismags(pat, pat, case)
+    _, cosets = ismags.analyze_symmetry(pat, ismags._sgn_partitions, ismags._sge_colors)  # pylint: disable=protected-access
+    described = 1
+    for members in cosets.values():
+        described *= len(members)
+    return described < len(ref_automorphisms(pat, case['nm'], case['em'], IMAX))
+
+
+MATCHERS = {'refine-branch-loses-orderings': _match_refine_branch}
